@@ -54,16 +54,32 @@ func genTreeText(rt *rapid.T, prefix string, minTips, maxTips int, comments bool
 		subs = append(subs, prefix+strconv.Itoa(i))
 	}
 	ncom := 0
+	negUsed := false
 	deco := func(s string, inner bool) string {
 		if inner && rapid.IntRange(0, 2).Draw(rt, "sup") == 0 {
 			s += strconv.FormatFloat(float64(rapid.IntRange(0, 8).Draw(rt, "supv"))/8, 'f', -1, 64)
+			if rapid.IntRange(0, 3).Draw(rt, "pval") == 0 {
+				s += "/" + strconv.FormatFloat(float64(rapid.IntRange(0, 8).Draw(rt, "pvalv"))/16, 'f', -1, 64) // support/p-value
+			}
 		}
 		if comments && rapid.IntRange(0, 3).Draw(rt, "ncomment") == 0 {
 			ncom++
 			s += "[n" + strconv.Itoa(ncom) + "]"
 		}
 		if lens == 1 || (lens == 2 && rapid.Bool().Draw(rt, "haslen")) {
-			s += ":" + strconv.FormatFloat(float64(rapid.IntRange(0, 32).Draw(rt, "len"))/16, 'f', -1, 64)
+			l := float64(rapid.IntRange(0, 32).Draw(rt, "len")) / 16
+			switch rapid.IntRange(0, 11).Draw(rt, "lenkind") {
+			case 0:
+				// negative lengths are legal (distance methods produce them); one per tree and off the 1/16 grid, so
+				// that no sum of lengths is exactly -1, the value gotree keeps for "no length"
+				if !negUsed {
+					negUsed = true
+					l = -l - 1.0/64
+				}
+			case 1:
+				l = l / 1048576 // tiny, still dyadic
+			}
+			s += ":" + strconv.FormatFloat(l, 'f', -1, 64)
 			if comments && rapid.IntRange(0, 3).Draw(rt, "bcomment") == 0 {
 				ncom++
 				s += "[b" + strconv.Itoa(ncom) + "]"
@@ -460,6 +476,19 @@ func applyOp(st *histState, op HOp) (desc string, err error) {
 			for _, n := range g {
 				if n != o {
 					st.added = append(st.added, n)
+				}
+			}
+		}
+		if op.B%5 == 3 && len(tips) > len(old) {
+			// a group with nothing to insert, in front of the others
+			for _, cand := range tips {
+				used := false
+				for _, o := range old {
+					used = used || o == cand
+				}
+				if !used {
+					groups = append([][]string{{cand}}, groups...)
+					break
 				}
 			}
 		}
